@@ -11,7 +11,7 @@ import itertools
 import json
 import os
 
-from ..absint import enumerate_cells, count_effects, flat_effects, show, Budget, OTHER
+from ..absint import enumerate_cells, count_effects, flat_effects, show, Budget, OTHER, Interp, _Raise
 from ..layers import LayerRunner, symbolic_node
 from ..report import where, VERIF
 from ..routing import GroupSim, concrete_entity_classes, cell_label, ups, downs, ATOM_PAYLOAD, ATOM_SKDM
@@ -363,6 +363,46 @@ def rule_split(ctx, repo):
                 key = tuple(sorted((k, str(v)) for k, v in view.items() if k in ("type", "<enc>")))
                 lo, hi = ups(rs["effects"])
                 tot.setdefault(L.name, []).append((key, lo, hi, cell_label(cell)))
+        if tag == "receipt":
+            # the same with history: a stanza was sent encrypted earlier (it sits in the sender half's queue of sent
+            # stanzas) and its receipt arrives - a retry receipt is consumed (answered and re-sent), every other receipt
+            # still reaches the application exactly once
+            for L in pair:
+                if repo.find_method(L, "enqueueSent")[1] is None:
+                    continue
+
+                def with_history(cell, d, L=L):
+                    it = Interp(repo, cell, d, hooks=runner.hooks())
+                    it.layer_base = runner.base
+                    layer = runner.make_layer(it, L)
+                    it.method_call(layer, "enqueueSent", [symbolic_node("message")], {}, {"@module": L.module, "@owner": L}, 0, None)
+                    it.effects[:] = []
+                    k_, m_ = repo.find_method(L, "receive")
+                    rs = {"raised": None}
+                    try:
+                        it.call_function(m_, k_, layer, [symbolic_node(tag)], {}, depth=0)
+                    except _Raise as r:
+                        rs["raised"] = r.text
+                    rs["effects"] = it.effects
+                    return rs, it
+                try:
+                    res = enumerate_cells(with_history, {}, max_cells=500)
+                except Budget:
+                    ctx.undecided("C06.split", where(L.relpath, L.name + ".receive", None), "<receipt> for a queued stanza", "budget")
+                    continue
+                bad = []
+                for cell, rs in res:
+                    view = cell_view(cell)
+                    if rs["raised"]:
+                        continue
+                    lo, hi = ups(rs["effects"])
+                    if view.get("type") == "retry":
+                        if hi != 0:
+                            bad.append("a retry receipt for a queued stanza is also passed up")
+                    elif (lo, hi) != (1, 1):
+                        bad.append("a receipt for a stanza sent encrypted earlier is passed up %s times when %s" % ((lo, hi), cell_label(cell) or "always"))
+                ctx.check("C06.split", not bad, where(L.relpath, L.name + ".receive", None), "<receipt> for a stanza sent encrypted earlier",
+                          "; ".join(sorted(set(bad))[:2]) + " - the receipt reaches nobody (the receiving half ignores receipts)", "retry receipts consumed, every other receipt passed up once (%d cell(s))" % len(res))
         sums = [sum(min(x[1] for x in v) for v in tot.values()), sum(max(x[2] for x in v) for v in tot.values())] if tot else [0, 0]
         by = {name: (min(x[1] for x in v), max(x[2] for x in v)) for name, v in tot.items()}
         ok = sums == [1, 1]
